@@ -975,7 +975,10 @@ class BlockwiseRequest(BaseUnicastRequest, interfaces.Request):
                 block_cursor += 1
 
             while block1.size_exponent < size_exp:
-                block_cursor *= 2
+                # (BERT block numbers count 1024-byte blocks just like those
+                # of size exponent 6: that step leaves the number as it is)
+                if size_exp != 7:
+                    block_cursor *= 2
                 size_exp -= 1
 
             if not current_block1.opt.block1.more:
